@@ -49,6 +49,9 @@ class FStringRules:
                 col=s1.lexpos,
             )
         else:
+            if is_raw:
+                # p_subproc_atom_str passes raw literals on without expansion
+                s.is_raw = True
             p[0] = s
 
     def p_fstring_content_empty(self, p):
